@@ -37,6 +37,13 @@ def parse_routes_impl(res):
             vals = [t.next() for _ in range(4)]
             lst.append((left, right, shift, vals))
         out[key.lower()] = lst
+    if t.peek() == 'VO':
+        t.next()
+        out['vo'] = [t.next() for _ in range(t.int())]
+        t.expect('AO')
+        out['ao'] = [t.next() for _ in range(t.int())]
+        t.expect('GC')
+        out['gc'] = t.next() if t.peek() != 'VIAF' else ''
     t.expect('VIAF')
     if t.peek() == '-':
         out['viaf'] = None
@@ -108,7 +115,7 @@ def run(chk, routes_data=None):
     chk.rule = ("op routes: direct build and integrator route on uniform/lattice/on-boundary/coplanar/collinear/n=1/n=2 inputs, 1D/2D/3D, periodic or not, "
                 "with mask none and random/all/none/single masks; the index structure is compared token by token with Model/Tess on the plane facts of the constructed cells, "
                 "and the C12 statement is evaluated directly on both routes; non-trivial = tessellation with >= 1 interior face; distinct by record")
-    chk.lean(['MVoro.Props.C12', 'MVoro.Proofs.TessBook'], [], [])
+    chk.lean(['MVoro.Props.C12', 'MVoro.Proofs.TessBook'], ['MVoro.Obl.Rules'], ['Rules'])
     got = run_cells_op(chk, op='routes')
     if got is None:
         return
@@ -128,6 +135,8 @@ def run(chk, routes_data=None):
         mm = parse_routes_model(m)
         for route in ('direct', 'via'):
             v = impl[route]
+            for p in accessor_problems(v):
+                chk.violation('impl-vs-oracle', '%s route: %s (record %d, %s, mask %s)' % (route, p, r.id, r.family, mask_str(inp)), rp, key=route + ' accessor')
             for p in index_predicates(v, inp.n):
                 chk.violation('impl-vs-oracle', '%s route: %s (record %d, %s, mask %s)' % (route, p, r.id, r.family, mask_str(inp)), rp, key=route + ' ' + p.split(' of cell')[0])
             st = impl_structure(v)
